@@ -7,6 +7,16 @@ import Nebula.Spec.IP
 namespace Nebula.Lemmas.PktParse
 open Nebula.Pkt Nebula.Spec.IP
 
+/-- the regenerated case lists are the ones the proofs are about (fails to elaborate if the source changes them) -/
+theorem mem_tlv (nh : Nat) : nh ∈ tlvTypes ↔ (nh = 0 ∨ nh = 43 ∨ nh = 60) := by
+  simp [tlvTypes, Gen.iputil_extHeaderWalkCases]
+theorem mem_frag (nh : Nat) : nh ∈ fragTypes ↔ nh = 44 := by
+  simp [fragTypes, Gen.iputil_extHeaderWalkCases]
+theorem mem_ah (nh : Nat) : nh ∈ ahTypes ↔ nh = 51 := by
+  simp [ahTypes, Gen.iputil_extHeaderWalkCases]
+theorem mem_after (nh : Nat) : nh ∈ afterLoopTypes ↔ (nh = 0 ∨ nh = 43 ∨ nh = 44 ∨ nh = 51 ∨ nh = 60) := by
+  simp [afterLoopTypes, Gen.iputil_extHeaderAfterLoopCases]
+
 @[simp] theorem ok_bind {α β : Type} (a : α) (f : α → Res β) : (Res.ok a >>= f) = f a := rfl
 @[simp] theorem err_bind {α β : Type} (e : Err) (f : α → Res β) : (Res.err e >>= f) = Res.err e := rfl
 @[simp] theorem panic_bind {α β : Type} (f : α → Res β) : (Res.panic >>= f) = Res.panic := rfl
@@ -38,13 +48,13 @@ theorem loop_no_panic (d : List UInt8) : ∀ fuel nh off af, findUpperLoop d fue
   induction fuel with
   | zero =>
     intro nh off af
-    simp only [findUpperLoop]
+    simp only [findUpperLoop, mem_tlv, mem_frag, mem_ah, mem_after]
     split
     · simp
     · split <;> simp
   | succ n ih =>
     intro nh off af
-    simp only [findUpperLoop]
+    simp only [findUpperLoop, mem_tlv, mem_frag, mem_ah, mem_after]
     split
     · split
       · simp
@@ -67,14 +77,14 @@ theorem loop_ok_off_le (d : List UInt8) (fuel nh off : Nat) (af : Bool) (w : V6W
     (h : findUpperLoop d fuel nh off af = .ok w) : off ≤ d.length := by
   cases fuel with
   | zero =>
-    simp only [findUpperLoop] at h
+    simp only [findUpperLoop, mem_tlv, mem_frag, mem_ah, mem_after] at h
     split at h
     · simp at h
     · split at h
       · simp at h
       · omega
   | succ n =>
-    simp only [findUpperLoop] at h
+    simp only [findUpperLoop, mem_tlv, mem_frag, mem_ah, mem_after] at h
     split at h
     · split at h
       · simp at h
@@ -146,7 +156,7 @@ theorem loop_walk (d : List UInt8) : ∀ (fuel nh off : Nat) (af : Bool) (k sf :
   | zero =>
     intro nh off af k sf w hsf h
     obtain ⟨sf', rfl⟩ : ∃ s, sf = s + 1 := ⟨sf - 1, by omega⟩
-    simp only [findUpperLoop] at h
+    simp only [findUpperLoop, mem_tlv, mem_frag, mem_ah, mem_after] at h
     split at h
     · simp at h
     · split at h
@@ -158,7 +168,7 @@ theorem loop_walk (d : List UInt8) : ∀ (fuel nh off : Nat) (af : Bool) (k sf :
   | succ n ih =>
     intro nh off af k sf w hsf h
     obtain ⟨sf', rfl⟩ : ∃ s, sf = s + 1 := ⟨sf - 1, by omega⟩
-    simp only [findUpperLoop] at h
+    simp only [findUpperLoop, mem_tlv, mem_frag, mem_ah, mem_after] at h
     split at h
     · rename_i hA
       split at h
@@ -244,7 +254,7 @@ theorem loop_ok_shape (d : List UInt8) : ∀ (fuel nh off : Nat) (af : Bool) (w 
   induction fuel with
   | zero =>
     intro nh off af w h
-    simp only [findUpperLoop] at h
+    simp only [findUpperLoop, mem_tlv, mem_frag, mem_ah, mem_after] at h
     split at h
     · simp at h
     · split at h
@@ -255,7 +265,7 @@ theorem loop_ok_shape (d : List UInt8) : ∀ (fuel nh off : Nat) (af : Bool) (w 
         simp [isExtHeader]; omega
   | succ n ih =>
     intro nh off af w h
-    simp only [findUpperLoop] at h
+    simp only [findUpperLoop, mem_tlv, mem_frag, mem_ah, mem_after] at h
     split at h
     · split at h
       · simp at h
